@@ -539,6 +539,32 @@ def run_models(chk: Check, invariants: list[str], *, libs=("std", "max"), cfgs=C
                         + "CHECK_DEADLOCK FALSE\n")
             chk.model("hdlc", "MC_HdlcReader", path, workers=16, coverage=False, timeout=1500)
 
+    def consts(st, ab, segs, maxlen, bound, lib):
+        return (f"CONSTANTS\n Stuffing = {str(st).upper()}\n Abort = {str(ab).upper()}\n MaxSegs = {segs}\n TrimAtEnd = TRUE\n FlagGuard = TRUE\n"
+                f" MaxLen = {maxlen}\n BufBound = {bound}\n Lib = \"{lib}\"\n")
+    if "Resync" in invariants and "max" in libs:
+        # the non-stuffing form of C16 binds nothing in the "max" library at these sizes (witness W_ResyncBinds unreachable): own library
+        for (st, ab) in cfgs:
+            if not st:
+                path = os.path.join(chk.rundir, f"MC_HdlcReader_rs_{ab}.cfg")
+                with open(path, "w") as f:
+                    f.write("SPECIFICATION Spec\n" + consts(False, ab, 4 if quick else 5, 8, 27, "rs")
+                            + "INVARIANT Resync\nINVARIANT Refines\nINVARIANT ValidIffIntact\nINVARIANT BufBounded\nCHECK_DEADLOCK FALSE\n")
+                chk.model("hdlc", "MC_HdlcReader", path, workers=16, coverage=False, timeout=1500)
+    # vacuity guards for the invariants just checked
+    std = [w for inv, ws in (("ValidIffIntact", ["W_ValidOut", "W_InvalidOut"]), ("Segmented", ["W_ValidOut"]), ("CleanDelivered", ["W_TwoCleanDelivered"]),
+                             ("Refines", ["W_CallEndsInsideFrame"])) if inv in invariants for w in ws]
+    if std and "std" in libs:
+        chk.witnesses("hdlc", "MC_HdlcReader", consts(True, True, 2, 2047, 100, "std"), sorted(set(std)))
+    if "max" in libs:
+        mx = (["W_ResyncBinds"] if "Resync" in invariants else []) + (["W_RetainedNearMax"] if "BufBounded" in invariants else [])
+        if mx:
+            chk.witnesses("hdlc", "MC_HdlcReader", consts(True, True, 3, 12, 27, "max"), mx)
+        if "Resync" in invariants:
+            chk.witnesses("hdlc", "MC_HdlcReader", consts(False, True, 4, 8, 27, "rs"), ["W_ResyncBinds"])
+        if "BufBounded" in invariants:
+            chk.witnesses("hdlc", "MC_HdlcReader", consts(False, False, 3, 12, 27, "max"), ["W_RetainedNearMax"])
+
 
 def _mk_free(args):
     seed, n, ncuts = args
